@@ -308,6 +308,16 @@ def ukfCorrectAugmented (fac : α → Mat α (n + nz) (n + nz) → Mat α (n + n
     | none => { belief := pred, lik := none }
     | some ut => ukfUpdate inv innovation y ut ut.cross pred out
 
+/-- `GaussianCorrection::correct` around `correctStep`: a skipped correction hands the predicted belief
+    over unchanged (the whole mixture) and leaves the kept likelihood data alone.  The flag is part of the
+    object's state and survives copy / move construction (code after fix 88cf1f5). -/
+def gaussianCorrect (skip : Bool) (pred : GM α n k) (step : UKFCorrOut α n m k) : GM α n k :=
+  if skip then pred else step.belief
+
+/-- `GaussianPrediction::predict` around `predictStep` -/
+def gaussianPredict (skip : Bool) (prev : GM α n k) (step : GM α n k) : GM α n k :=
+  if skip then prev else step
+
 /-- `LinearMeasurementModel::innovation`: `-(ŷ_i - y)` for every component, always valid. -/
 def linearInnovation : (Fin k → Vec α m) → Vec α m → Option (Fin k → Vec α m) :=
   fun yp y => some (fun i => Vec.neg ((yp i).sub y))
